@@ -85,6 +85,17 @@ SETTER_HARNESS(m_start, m_mod_start)
 SETTER_HARNESS(m_pause, m_mod_pause)
 SETTER_HARNESS(m_resume, m_mod_resume)
 SETTER_HARNESS(m_stop, m_mod_stop)
+#ifdef V_TB_UNIT
+void h_set_tokenbucket(void) {
+    build_mod();
+    V_ASSUME(vin_ctxdereg_ret <= 0);
+    g_regtmr_ret = vin_ctxdereg_ret; g_mod->tb.timer.ns = vin_nmods == 1 ? 0 : vin_nmods;
+    int r = m_mod_set_tokenbucket(vin_null_mod ? NULL : g_mod, (uint32_t)vin_others, vin_action_ctr);
+    V_COVER("tb-first-time", r == 0 && vin_nmods == 1 && (uint32_t)vin_others == 1000); V_COVER("tb-reconfigure", g.deregtmr_calls == 1 && g.regtmr_calls == 1);
+    V_COVER("tb-disable", r == 0 && (uint32_t)vin_others == 0 && !vin_null_mod); V_COVER("tb-bad-rate", r == -EINVAL && (uint32_t)vin_others > BILLION);
+    V_CANARY();
+}
+#endif
 #endif
 
 #ifdef V_RESET_UNIT
